@@ -9,7 +9,7 @@
    lookup in that state.  The only hypothesis, `shadow_wf w`, says that the parent loader binds a type under
    the key of its name (checked on every case of the correspondence run). *)
 From Coq Require Import ZArith NArith Bool List String Ascii Lia.
-From PcoreV Require Import Model.Base Model.FileLoader Model.FileLoaderText Proofs.FileLoaderProofs Proofs.FileLoaderTextProofs Proofs.FileLoaderIff Proofs.FileLoaderMember Proofs.FileLoaderMemberG.
+From PcoreV Require Import Model.Base Model.FileLoader Model.FileLoaderText Proofs.FileLoaderProofs Proofs.FileLoaderTextProofs Proofs.FileLoaderIff Proofs.FileLoaderMember Proofs.FileLoaderParentBound Proofs.FileLoaderMemberG.
 Import ListNotations.
 Local Open Scope nat_scope.
 
@@ -222,12 +222,16 @@ Proof. exact member_claim_not_missed. Qed.
 Print Assumptions C15_typeset_member_never_missed_dec.
 
 (* ---- the same with a weaker guard (depth pass 7, Proofs/FileLoaderMemberG.v) ------------------------------------ *)
-(* `member_claim_ok w i k` = `sole_claimant3 w i k` (the first three conditions of sole_claimant: no loader has a file at the
-   path derived from k, no TypeSet file of another loader declares a member named k, the parent does not bind k)
-   OR some consulted loader has a well-formed definition file for k at the path derived from it (a name that is both a
-   TypeSet member and a file).  The fourth condition of sole_claimant (no TypeSet file of loader i declares a member
-   named like the TypeSet kd) is GONE: a TypeSet that has its own file and is also a member of another TypeSet of the
-   same loader.  There the other TypeSet may bind kd as its member over the placeholder of the instantiation of kd's own
+(* `member_claim_ok w i k` = `sole_claimant2 w i k` OR some consulted loader has a well-formed definition file for k at the
+   path derived from it (a name that is both a TypeSet member and a file: then C15_definition_file_never_missed applies).
+   `sole_claimant2 w i k`: (1') `no_good_file w k` - a file at the path derived from k, in whatever loader, is NOT a
+   definition of k (malformed, misnamed, without definition, unreadable; in particular: no file there) - and (2) no TypeSet
+   file of another loader declares a member named k.
+   Of the four conditions of sole_claimant: (1) "no loader has a file at the path derived from k" is weakened to (1') or a
+   good file in a consulted loader (what remains excluded: a good file in a loader that is NOT consulted for k);
+   (3) "the parent does not bind k" is GONE (C15_parent_binding_never_missed: the parent is asked first);
+   (4) "no TypeSet file of loader i declares a member named like the TypeSet kd" is GONE: a TypeSet that has its own file
+   and is also a member of another TypeSet of the same loader.  There the other TypeSet may bind kd as its member over the placeholder of the instantiation of kd's own
    file; the invariant is weakened to "(i, kd) holds a TYPESET value => (i, k) holds a value", and the relation between
    the overwritten placeholder and the instantiation in progress is Q3: "a computation that ends without error ends with a
    non-TypeSet value in (i, kd) only if it started with one or with a placeholder there" - the instantiation that set the
@@ -255,8 +259,18 @@ Print Assumptions C15_typeset_member_found_claimed.
 (* the guard of the old theorem implies the new one *)
 Theorem C15_sole_claimant_is_claim_ok :
   forall w i kd k, sole_claimant w i kd k -> member_claim_ok w i k.
-Proof. intros w i kd k H. left. exact (sole_claimant_3 w i kd k H). Qed.
+Proof. intros w i kd k H. left. destruct (sole_claimant_3 w i kd k H) as (G1 & G2 & _). split; [exact G1|exact G2]. Qed.
 Print Assumptions C15_sole_claimant_is_claim_ok.
+
+(* a name that the parent loader binds is never answered "not found" after an error-free run, in any topology (i: some
+   loader is consulted for the name - a dependency loader over no module answers nothing), whatever the file-based
+   loaders hold for it: fileBasedLoader.LoadEntry asks the parent first (Proofs/FileLoaderParentBound.v) *)
+Theorem C15_parent_binding_never_missed :
+  forall w fuel ops ctx name s' o rd i,
+    clean_run w fuel ops -> lookup_after w fuel ops ctx name = (s', (o, rd)) ->
+    shadow w (norm_name name) <> None -> consulted w (norm_name name) i -> o <> ONotFound.
+Proof. exact parent_bound_not_missed. Qed.
+Print Assumptions C15_parent_binding_never_missed.
 
 (* in the state reached by an error-free run, the entry of loader i for the name of its TypeSet file holds nothing, or
    the TypeSet - never the member value that another TypeSet of the loader declares under the same name *)
@@ -685,7 +699,7 @@ Example C15_example_member_claimed :
   let k := norm_name (s "A::B::C") in let kd := norm_name (s "A::B") in
   members_wf ex_maf /\
   member_claim_b ex_maf 0 k = false /\ member_claim3_b ex_maf 0 k = true /\
-  ts_member ex_maf 0 kd k /\ sole_claimant3 ex_maf 0 k /\ ~ sole_claimant ex_maf 0 kd k /\
+  ts_member ex_maf 0 kd k /\ sole_claimant3 ex_maf 0 k /\ member_claim_ok ex_maf 0 k /\ ~ sole_claimant ex_maf 0 kd k /\
   clean_run ex_maf 8 [OpLoad (-1) (s "A"); OpLoad 0 (s "A::D")] /\
   get_entry (reach ex_maf 8 [OpLoad (-1) (s "A"); OpLoad 0 (s "A::D")]) 0 kd = Some (Some {| tv_name := kd; tv_marker := 0; tv_ts := true |}) /\
   fst (snd (lookup_after ex_maf 8 [OpLoad (-1) (s "A"); OpLoad 0 (s "A::D")] 1 (s "a::b::C")))
@@ -702,10 +716,48 @@ Proof.
   split; [vm_compute; reflexivity|]. split; [vm_compute; reflexivity|].
   split; [apply ts_member_b_true; vm_compute; reflexivity|].
   split; [apply sole3_b_true; vm_compute; reflexivity|].
+  split; [left; apply sole2_b_true; vm_compute; reflexivity|].
   split.
   { intros (_ & _ & _ & G4).
     apply (G4 (s "types/a.pp") (ex_file "types/a.pp" false (CTypeSet (s "A") [s "B"; s "D"]) 10) (s "A") [s "B"; s "D"] (s "B"));
       [vm_compute; reflexivity|reflexivity|left; reflexivity|vm_compute; reflexivity]. }
   split; [unfold clean_run; vm_compute; reflexivity|].
   repeat split; vm_compute; reflexivity.
+Qed.
+
+(* a member that is ALSO the name of a definition file of its own (corpus member-and-file-0: types/a.pp = TypeSet A {B, D},
+   types/a/b.pp = alias A::B), a member with a MALFORMED file at its own path, and a member name that the parent binds:
+   all three are outside sole_claimant and inside the new guard *)
+Definition ex_maf0 : world :=
+  {| w_top := TopSingle;
+     w_mods := [ {| m_name := [];
+                    m_walk := [ ex_file "types" true CNoDef 0;
+                                ex_file "types/a" true CNoDef 0;
+                                ex_file "types/a/b.pp" false (CGood (s "A::B") []) 20;
+                                ex_file "types/a/d.pp" false (CMalformed 2) 30;
+                                ex_file "types/a.pp" false (CTypeSet (s "A") [s "B"; s "D"; s "E"]) 10 ] |} ];
+     w_shadow := [(s "a::e", s "a::e")] |}.
+
+Example C15_example_member_claimed_file :
+  members_wf ex_maf0 /\
+  member_claim_b ex_maf0 0 (s "a::b") = false /\ member_claim3_b ex_maf0 0 (s "a::b") = true /\
+  member_claim_b ex_maf0 0 (s "a::d") = false /\ member_claim3_b ex_maf0 0 (s "a::d") = true /\
+  member_claim_b ex_maf0 0 (s "a::e") = false /\ member_claim3_b ex_maf0 0 (s "a::e") = true /\
+  (exists j, consulted ex_maf0 (s "a::b") j /\ defined_file ex_maf0 j (s "a::b")) /\
+  sole_claimant2 ex_maf0 0 (s "a::d") /\ find_existing_path (indexes_of ex_maf0) 0 (s "a::d") <> None /\
+  sole_claimant2 ex_maf0 0 (s "a::e") /\ shadow ex_maf0 (s "a::e") <> None /\
+  run ex_maf0 8 [OpLoad (-1) (s "A::E"); OpLoad 0 (s "A::B"); OpLoad 0 (s "A::D"); OpLoad 0 (s "A::D")]
+    = [ (OFound {| tv_name := s "a::e"; tv_marker := 0; tv_ts := false |}, []);
+        (OFound {| tv_name := s "a::b"; tv_marker := 20; tv_ts := false |}, [(0, s "types/a/b.pp")]);
+        (OErr (EParse 0 (s "types/a/d.pp") 2), [(0, s "types/a/d.pp")]);
+        (ONotFound, []) ].
+Proof.
+  split; [apply members_wf_b_true; vm_compute; reflexivity|].
+  do 6 (split; [vm_compute; reflexivity|]).
+  split; [apply has_def_file_b_true; vm_compute; reflexivity|].
+  split; [apply sole2_b_true; vm_compute; reflexivity|].
+  split; [vm_compute; discriminate|].
+  split; [apply sole2_b_true; vm_compute; reflexivity|].
+  split; [vm_compute; discriminate|].
+  vm_compute. reflexivity.
 Qed.
